@@ -770,4 +770,509 @@ theorem resume_eff (g : Graph) (hwf : graphWF g = true) (s : State) (w : Nat) (o
     right
     exact ⟨n, ph, dir, uid, tag, wait, rfl, resumeTest_eff g hwf s w n ph dir uid tag wait out fuel hf hw hpath⟩
 
+/-! ## the basic bookkeeping invariant -/
+
+/-- the UNKNOWN placeholder of execution `tag` -/
+def phOf (nm : String) (tag : Nat) : Result := { name := nm, status := "UNKNOWN", uid := "", tag := tag }
+
+/-- "is the placeholder of execution `t`" -/
+def isPh (t : Nat) (r : Result) : Bool := r.status == "UNKNOWN" && r.tag == t
+
+def All : Nat → Prop := fun _ => True
+def Ex (w : Nat) : Nat → Prop := fun v => v ≠ w
+
+/-- Bookkeeping invariant; the clauses about a worker's pc are required for the workers in `L` only
+(inside a step the stepping worker is exempt). -/
+structure Basic (g : Graph) (s : State) (L : Nat → Prop) : Prop where
+  nodesLen : s.nodes.length = g.nodes.length
+  workersLen : s.workers.length = g.workers.length
+  paths : ∀ v x, x ∈ (s.wd v).path → x < g.nodes.length
+  tagPos : 1 ≤ s.nextTag
+  pcOK : ∀ v n ph dir uid tag wait, L v → (s.wd v).pc = .test n ph dir uid tag wait →
+    n < g.nodes.length ∧ 1 ≤ tag ∧ tag < s.nextTag ∧ ((g.node n).objectRoot = false ↔ ph = .plain) ∧
+    (ph = .pre → (s.wd v).preName = preNameOf g n v)
+  tagsDistinct : ∀ v v' n ph dir uid tag wait n' ph' dir' uid' tag' wait', L v → L v' → v ≠ v' →
+    (s.wd v).pc = .test n ph dir uid tag wait → (s.wd v').pc = .test n' ph' dir' uid' tag' wait' → tag ≠ tag'
+  placeholder : ∀ v n ph dir uid tag wait, L v → (s.wd v).pc = .test n ph dir uid tag wait →
+    (ph ≠ .pre → phOf (g.node n).name tag ∈ (s.nd n).results) ∧
+    (ph = .pre → phOf (s.wd v).preName tag ∈ (s.wd v).preResults)
+  tagsBelow : ∀ m, (g.node m).objectRoot = false → ∀ r ∈ (s.nd m).results, r.tag < s.nextTag
+  tagsOnce : ∀ m t, (g.node m).objectRoot = false → 1 ≤ t → ((s.nd m).results.filter (isPh t)).length ≤ 1
+
+theorem Basic.mono {g : Graph} {s : State} {L L' : Nat → Prop} (b : Basic g s L) (h : ∀ v, L' v → L v) : Basic g s L' :=
+  ⟨b.nodesLen, b.workersLen, b.paths, b.tagPos,
+   fun v n ph dir uid tag wait hl => b.pcOK v n ph dir uid tag wait (h v hl),
+   fun v v' n ph dir uid tag wait n' ph' dir' uid' tag' wait' hl hl' =>
+     b.tagsDistinct v v' n ph dir uid tag wait n' ph' dir' uid' tag' wait' (h v hl) (h v' hl'),
+   fun v n ph dir uid tag wait hl => b.placeholder v n ph dir uid tag wait (h v hl),
+   b.tagsBelow, b.tagsOnce⟩
+
+theorem Basic.of_eq {g : Graph} {s s' : State} {L : Nat → Prop} (b : Basic g s L)
+    (hn : s'.nodes = s.nodes) (hw : s'.workers = s.workers) (ht : s'.nextTag = s.nextTag) : Basic g s' L := by
+  obtain ⟨n1, r1, w1, st1, j1, t1⟩ := s
+  obtain ⟨n2, r2, w2, st2, j2, t2⟩ := s'
+  simp only at hn hw ht
+  subst hn hw ht
+  exact ⟨b.nodesLen, b.workersLen, b.paths, b.tagPos, b.pcOK, b.tagsDistinct, b.placeholder, b.tagsBelow, b.tagsOnce⟩
+
+theorem Basic.sameBook {g : Graph} {s s' : State} {L : Nat → Prop} (b : Basic g s L) (h : SameBook s s') : Basic g s' L :=
+  b.of_eq h.1 h.2.1 h.2.2
+
+/-- a test pc after a silent effect is the old one, with the same creation copy -/
+theorem Silent.back {g : Graph} {w : Nat} {s s' : State} (a : Silent g w s s') (v : Nat)
+    {n : Nat} {ph : Phase} {dir : Dir} {uid : String} {tag wait : Nat}
+    (h : (s'.wd v).pc = .test n ph dir uid tag wait) :
+    (s.wd v).pc = .test n ph dir uid tag wait ∧ (s'.wd v).preName = (s.wd v).preName ∧
+      (s'.wd v).preResults = (s.wd v).preResults := by
+  by_cases hv : v = w
+  · subst hv
+    rcases a.pc with h' | h'
+    · exact ⟨by rw [← h', h], a.preN, a.preR⟩
+    · rw [h] at h'; simp [Pc.isTest] at h'
+  · rw [a.others v hv] at h ⊢
+    exact ⟨h, rfl, rfl⟩
+
+theorem Basic.silent {g : Graph} {w : Nat} {s s' : State} {L : Nat → Prop} (b : Basic g s L) (a : Silent g w s s') :
+    Basic g s' L where
+  nodesLen := a.nodesLen.trans b.nodesLen
+  workersLen := a.workersLen.trans b.workersLen
+  paths := fun v x hx => by
+    by_cases hv : v = w
+    · subst hv; exact a.path (b.paths v) x hx
+    · rw [a.others v hv] at hx; exact b.paths v x hx
+  tagPos := by rw [a.tag]; exact b.tagPos
+  pcOK := fun v n ph dir uid tag wait hl h => by
+    obtain ⟨h0, hn, _⟩ := a.back v h
+    rw [a.tag, hn]
+    exact b.pcOK v n ph dir uid tag wait hl h0
+  tagsDistinct := fun v v' n ph dir uid tag wait n' ph' dir' uid' tag' wait' hl hl' hne h h' =>
+    b.tagsDistinct v v' n ph dir uid tag wait n' ph' dir' uid' tag' wait' hl hl' hne (a.back v h).1 (a.back v' h').1
+  placeholder := fun v n ph dir uid tag wait hl h => by
+    obtain ⟨h0, hn, hr⟩ := a.back v h
+    rw [a.results, hn, hr]
+    exact b.placeholder v n ph dir uid tag wait hl h0
+  tagsBelow := fun m hm r hr => by rw [a.tag]; rw [a.results] at hr; exact b.tagsBelow m hm r hr
+  tagsOnce := fun m t hm ht => by rw [a.results]; exact b.tagsOnce m t hm ht
+
+theorem filter_isPh_nil (l : List Result) (T : Nat) (h : ∀ r ∈ l, r.tag < T) : l.filter (isPh T) = [] := by
+  rw [List.filter_eq_nil_iff]
+  intro r hr hp
+  unfold isPh at hp
+  simp only [Bool.and_eq_true, beq_iff_eq] at hp
+  have := h r hr
+  omega
+
+/-- the tag counter advances and result lists stay or get the fresh placeholder appended -/
+theorem Basic.grow {g : Graph} {s s' : State} {L : Nat → Prop} (b : Basic g s L)
+    (hw : s'.workers = s.workers) (hl : s'.nodes.length = s.nodes.length) (ht : s'.nextTag = s.nextTag + 1)
+    (x : Result) (hx : x.tag = s.nextTag)
+    (hres : ∀ m, (s'.nd m).results = (s.nd m).results ∨ (s'.nd m).results = (s.nd m).results ++ [x]) : Basic g s' L := by
+  have hwd : ∀ v, s'.wd v = s.wd v := fun v => by unfold State.wd; rw [hw]
+  have hmem : ∀ m r, r ∈ (s.nd m).results → r ∈ (s'.nd m).results := by
+    intro m r hr
+    rcases hres m with h | h
+    · rw [h]; exact hr
+    · rw [h]; exact List.mem_append_left _ hr
+  refine ⟨hl.trans b.nodesLen, by rw [hw]; exact b.workersLen, fun v x hx => by rw [hwd] at hx; exact b.paths v x hx,
+    by rw [ht]; omega, ?_, ?_, ?_, ?_, ?_⟩
+  · intro v n ph dir uid tag wait hlv h
+    rw [hwd] at h ⊢
+    have := b.pcOK v n ph dir uid tag wait hlv h
+    rw [ht]
+    exact ⟨this.1, this.2.1, by omega, this.2.2.2⟩
+  · intro v v' n ph dir uid tag wait n' ph' dir' uid' tag' wait' hlv hlv' hne h h'
+    rw [hwd] at h h'
+    exact b.tagsDistinct v v' n ph dir uid tag wait n' ph' dir' uid' tag' wait' hlv hlv' hne h h'
+  · intro v n ph dir uid tag wait hlv h
+    rw [hwd] at h ⊢
+    have := b.placeholder v n ph dir uid tag wait hlv h
+    exact ⟨fun hp => hmem _ _ (this.1 hp), this.2⟩
+  · intro m hm r hr
+    rw [ht]
+    rcases hres m with h | h
+    · rw [h] at hr; have := b.tagsBelow m hm r hr; omega
+    · rw [h] at hr
+      rcases List.mem_append.mp hr with hr | hr
+      · have := b.tagsBelow m hm r hr; omega
+      · rw [List.mem_singleton.mp hr, hx]; omega
+  · intro m t hm ht1
+    rcases hres m with h | h
+    · rw [h]; exact b.tagsOnce m t hm ht1
+    · rw [h, List.filter_append, List.length_append]
+      by_cases hxt : isPh t x = true
+      · have : t = s.nextTag := by
+          unfold isPh at hxt
+          simp only [Bool.and_eq_true, beq_iff_eq] at hxt
+          omega
+        rw [this, filter_isPh_nil _ _ (b.tagsBelow m hm)]
+        simp only [List.length_nil, Nat.zero_add]
+        exact List.length_filter_le _ _
+      · have : [x].filter (isPh t) = [] := by simp [hxt]
+        rw [this]
+        simp only [List.length_nil, Nat.add_zero]
+        exact b.tagsOnce m t hm ht1
+
+/-- any update of the stepping worker's record that keeps its path inside the graph -/
+theorem Basic.setWd_ex {g : Graph} {s : State} {w : Nat} (b : Basic g s (Ex w)) (f : WorkerD → WorkerD)
+    (hp : ∀ x ∈ (f (s.wd w)).path, x < g.nodes.length) : Basic g (s.setWd w f) (Ex w) := by
+  have hwd : ∀ v, v ≠ w → (s.setWd w f).wd v = s.wd v := fun v hv => wd_setWd_ne s w v f hv
+  refine ⟨b.nodesLen, (workers_length_setWd s w f).trans b.workersLen, ?_, b.tagPos, ?_, ?_, ?_, b.tagsBelow, b.tagsOnce⟩
+  · intro v x hx
+    by_cases hv : v = w
+    · subst hv
+      rcases wd_setWd_cases s v f with ⟨h, _⟩ | ⟨_, h⟩
+      · rw [h] at hx; exact b.paths v x hx
+      · rw [h] at hx; exact hp x hx
+    · rw [hwd v hv] at hx; exact b.paths v x hx
+  · intro v n ph dir uid tag wait hlv h
+    rw [hwd v hlv] at h ⊢
+    exact b.pcOK v n ph dir uid tag wait hlv h
+  · intro v v' n ph dir uid tag wait n' ph' dir' uid' tag' wait' hlv hlv' hne h h'
+    rw [hwd v hlv] at h; rw [hwd v' hlv'] at h'
+    exact b.tagsDistinct v v' n ph dir uid tag wait n' ph' dir' uid' tag' wait' hlv hlv' hne h h'
+  · intro v n ph dir uid tag wait hlv h
+    rw [hwd v hlv] at h ⊢
+    exact b.placeholder v n ph dir uid tag wait hlv h
+
+theorem Basic.close_nontest {g : Graph} {s : State} {w : Nat} (b : Basic g s (Ex w)) (h : (s.wd w).pc.isTest = false) :
+    Basic g s All := by
+  have hne : ∀ v n ph dir uid tag wait, (s.wd v).pc = .test n ph dir uid tag wait → v ≠ w := by
+    intro v n ph dir uid tag wait hv hvw
+    subst hvw; rw [hv] at h; simp [Pc.isTest] at h
+  exact ⟨b.nodesLen, b.workersLen, b.paths, b.tagPos,
+    fun v n ph dir uid tag wait _ hp => b.pcOK v n ph dir uid tag wait (hne _ _ _ _ _ _ _ hp) hp,
+    fun v v' n ph dir uid tag wait n' ph' dir' uid' tag' wait' _ _ hvv hp hp' =>
+      b.tagsDistinct v v' n ph dir uid tag wait n' ph' dir' uid' tag' wait' (hne _ _ _ _ _ _ _ hp) (hne _ _ _ _ _ _ _ hp') hvv hp hp',
+    fun v n ph dir uid tag wait _ hp => b.placeholder v n ph dir uid tag wait (hne _ _ _ _ _ _ _ hp) hp,
+    b.tagsBelow, b.tagsOnce⟩
+
+/-- the stepping worker ends in a test pc whose clauses are supplied -/
+theorem Basic.close_test {g : Graph} {s : State} {w : Nat} (b : Basic g s (Ex w))
+    {n : Nat} {ph : Phase} {dir : Dir} {uid : String} {tag wait : Nat}
+    (hpc : (s.wd w).pc = .test n ph dir uid tag wait)
+    (h1 : n < g.nodes.length ∧ 1 ≤ tag ∧ tag < s.nextTag ∧ ((g.node n).objectRoot = false ↔ ph = .plain) ∧
+      (ph = .pre → (s.wd w).preName = preNameOf g n w))
+    (h2 : ∀ v n' ph' dir' uid' tag' wait', v ≠ w → (s.wd v).pc = .test n' ph' dir' uid' tag' wait' → tag' ≠ tag)
+    (h3 : (ph ≠ .pre → phOf (g.node n).name tag ∈ (s.nd n).results) ∧
+      (ph = .pre → phOf (s.wd w).preName tag ∈ (s.wd w).preResults)) : Basic g s All := by
+  refine ⟨b.nodesLen, b.workersLen, b.paths, b.tagPos, ?_, ?_, ?_, b.tagsBelow, b.tagsOnce⟩
+  · intro v n' ph' dir' uid' tag' wait' _ hp
+    by_cases hv : v = w
+    · subst hv
+      rw [hpc] at hp
+      cases hp
+      exact h1
+    · exact b.pcOK v n' ph' dir' uid' tag' wait' hv hp
+  · intro v v' n1 ph1 dir1 uid1 tag1 wait1 n2 ph2 dir2 uid2 tag2 wait2 _ _ hvv hp hp'
+    by_cases hv : v = w
+    · subst hv
+      rw [hpc] at hp; cases hp
+      exact fun e => h2 v' n2 ph2 dir2 uid2 tag2 wait2 (Ne.symm hvv) hp' e.symm
+    · by_cases hv' : v' = w
+      · subst hv'
+        rw [hpc] at hp'; cases hp'
+        exact h2 v n1 ph1 dir1 uid1 tag1 wait1 hv hp
+      · exact b.tagsDistinct v v' n1 ph1 dir1 uid1 tag1 wait1 n2 ph2 dir2 uid2 tag2 wait2 hv hv' hvv hp hp'
+  · intro v n' ph' dir' uid' tag' wait' _ hp
+    by_cases hv : v = w
+    · subst hv
+      rw [hpc] at hp; cases hp
+      exact h3
+    · exact b.placeholder v n' ph' dir' uid' tag' wait' hv hp
+
+theorem filter_filter_length_le (l : List Result) (p q : Result → Bool) :
+    ((l.filter p).filter q).length ≤ (l.filter q).length := by
+  rw [List.filter_filter]
+  have : (l.filter (fun a => q a && p a)) = (l.filter q).filter p := by rw [List.filter_filter]; congr 1; funext a; exact Bool.and_comm _ _
+  rw [this]
+  exact List.length_filter_le _ _
+
+theorem isPh_phOf (nm : String) (t t' : Nat) : isPh t (phOf nm t') = (t' == t) := by
+  unfold isPh phOf
+  simp
+
+/-- the result of the awaited test replaces its placeholder (test proper) -/
+theorem Basic.settle {g : Graph} {s : State} {w : Nat} (b : Basic g s All)
+    {n : Nat} {ph : Phase} {dir : Dir} {uid : String} {tag wait : Nat}
+    (hpc : (s.wd w).pc = .test n ph dir uid tag wait) (res : Result) (hres : res.tag = 0) :
+    Basic g (settleNd s n res tag) (Ex w) := by
+  unfold settleNd
+  refine ⟨(nodes_length_setNd s n _).trans b.nodesLen, b.workersLen, b.paths, b.tagPos,
+    fun v n' ph' dir' uid' tag' wait' _ hp => b.pcOK v n' ph' dir' uid' tag' wait' trivial hp,
+    fun v v' n1 ph1 dir1 uid1 tag1 wait1 n2 ph2 dir2 uid2 tag2 wait2 _ _ hvv hp hp' =>
+      b.tagsDistinct v v' n1 ph1 dir1 uid1 tag1 wait1 n2 ph2 dir2 uid2 tag2 wait2 trivial trivial hvv hp hp', ?_, ?_, ?_⟩
+  · intro v n' ph' dir' uid' tag' wait' hv hp
+    have old := b.placeholder v n' ph' dir' uid' tag' wait' trivial hp
+    refine ⟨fun hph' => ?_, old.2⟩
+    have hne : tag' ≠ tag := b.tagsDistinct v w n' ph' dir' uid' tag' wait' n ph dir uid tag wait trivial trivial hv hp hpc
+    rcases nd_setNd_cases s n (fun d => { d with results := (d.results ++ [res]).filter (fun r => !(r.status == "UNKNOWN" && r.tag == tag)) }) n' with h | ⟨_, _, h⟩
+    · rw [h]; exact old.1 hph'
+    · rw [h]
+      refine List.mem_filter.mpr ⟨List.mem_append_left _ (old.1 hph'), ?_⟩
+      have := isPh_phOf (g.node n').name tag tag'
+      unfold isPh at this
+      rw [this]
+      simp [hne]
+  · intro m hm r hr
+    rcases nd_setNd_cases s n (fun d => { d with results := (d.results ++ [res]).filter (fun r => !(r.status == "UNKNOWN" && r.tag == tag)) }) m with h | ⟨_, _, h⟩
+    · rw [h] at hr; exact b.tagsBelow m hm r hr
+    · rw [h] at hr
+      rcases List.mem_append.mp (List.mem_filter.mp hr).1 with hr | hr
+      · exact b.tagsBelow m hm r hr
+      · rw [List.mem_singleton.mp hr, hres]; exact b.tagPos
+  · intro m t hm ht
+    rcases nd_setNd_cases s n (fun d => { d with results := (d.results ++ [res]).filter (fun r => !(r.status == "UNKNOWN" && r.tag == tag)) }) m with h | ⟨_, _, h⟩
+    · rw [h]; exact b.tagsOnce m t hm ht
+    · rw [h]
+      refine Nat.le_trans (filter_filter_length_le _ _ _) ?_
+      rw [List.filter_append, List.length_append]
+      have : [res].filter (isPh t) = [] := by
+        have : isPh t res = false := by
+          unfold isPh; rw [hres]
+          have : (0 == t) = false := by simp; omega
+          rw [this]; simp
+        simp [this]
+      rw [this]
+      simp only [List.length_nil, Nat.add_zero]
+      exact b.tagsOnce m t hm ht
+
+theorem Basic.settlePre {g : Graph} {s : State} {w : Nat} (b : Basic g s All) (res : Result) (tag : Nat) :
+    Basic g (settlePre s w res tag) (Ex w) :=
+  (b.mono (fun _ _ => trivial)).setWd_ex _ (fun x hx => b.paths w x hx)
+
+/-- results are appended to an object root -/
+theorem Basic.extendRoot {g : Graph} {s : State} {L : Nat → Prop} (b : Basic g s L) (n : Nat) (F : NodeD → List Result)
+    (hroot : (g.node n).objectRoot = true) :
+    Basic g (s.setNd n (fun d => { d with results := d.results ++ F d })) L := by
+  have hnr : ∀ m, (g.node m).objectRoot = false → m ≠ n := by
+    intro m hm hmn; subst hmn; rw [hroot] at hm; cases hm
+  refine ⟨(nodes_length_setNd s n _).trans b.nodesLen, b.workersLen, b.paths, b.tagPos, b.pcOK, b.tagsDistinct, ?_, ?_, ?_⟩
+  · intro v n' ph' dir' uid' tag' wait' hl hp
+    have old := b.placeholder v n' ph' dir' uid' tag' wait' hl hp
+    refine ⟨fun hph' => ?_, old.2⟩
+    rcases nd_setNd_cases s n (fun d => { d with results := d.results ++ F d }) n' with h | ⟨_, _, h⟩
+    · rw [h]; exact old.1 hph'
+    · rw [h]; exact List.mem_append_left _ (old.1 hph')
+  · intro m hm r hr
+    rw [nd_setNd_ne s n m _ (hnr m hm)] at hr
+    exact b.tagsBelow m hm r hr
+  · intro m t hm ht
+    rw [nd_setNd_ne s n m _ (hnr m hm)]
+    exact b.tagsOnce m t hm ht
+
+/-- the awaited result has not arrived: the worker sleeps once more -/
+theorem Basic.wait {g : Graph} {s : State} {w : Nat} (b : Basic g s All)
+    {n : Nat} {ph : Phase} {dir : Dir} {uid : String} {tag wait : Nat}
+    (hpc : (s.wd w).pc = .test n ph dir uid tag wait) (hw : w < s.workers.length) (wait' : Nat) :
+    Basic g (s.setWd w (fun d => { d with pc := .test n ph dir uid tag wait' })) All := by
+  have b1 : Basic g (s.setWd w (fun d => { d with pc := .test n ph dir uid tag wait' })) (Ex w) :=
+    (b.mono (fun _ _ => trivial)).setWd_ex _ (fun x hx => b.paths w x hx)
+  have hwd : (s.setWd w (fun d => { d with pc := .test n ph dir uid tag wait' })).wd w =
+      { s.wd w with pc := .test n ph dir uid tag wait' } := wd_setWd_eq s w _ hw
+  refine b1.close_test (by rw [hwd]) ?_ ?_ ?_
+  · rw [hwd]; exact b.pcOK w n ph dir uid tag wait trivial hpc
+  · intro v n' ph' dir' uid' tag' wait'' hv hp
+    rw [wd_setWd_ne s w v _ hv] at hp
+    exact b.tagsDistinct v w n' ph' dir' uid' tag' wait'' n ph dir uid tag wait trivial trivial hv hp hpc
+  · rw [hwd]; exact b.placeholder w n ph dir uid tag wait trivial hpc
+
+theorem startTest_nonpre_fst (g : Graph) (s : State) (n w : Nat) (ph : Phase) (dir : Dir) (hph : ph ≠ .pre) :
+    (startTest g s n w ph dir).1 =
+      (({ s with nextTag := s.nextTag + 1 }).setNd n (fun d => { d with results := d.results ++ [phOf (g.node n).name s.nextTag] })).setWd w
+        (fun d => { d with pc := .test n ph dir (uidOf (g.node n).pfx (sharedResults g s n).length) s.nextTag 0 }) := by
+  cases ph
+  · rfl
+  · exact absurd rfl hph
+  · rfl
+
+theorem startTest_pre_fst (g : Graph) (s : State) (n w : Nat) (dir : Dir) :
+    (startTest g s n w .pre dir).1 =
+      ({ s with nextTag := s.nextTag + 1 }).setWd w (fun d => { d with
+        preResults := d.preResults ++ [phOf (s.wd w).preName s.nextTag],
+        pc := .test n .pre dir (uidOf "0" (s.wd w).preResults.length) s.nextTag 0 }) := rfl
+
+theorem Basic.startNonPre {g : Graph} {s : State} {w : Nat} (b : Basic g s (Ex w)) (n : Nat) (ph : Phase) (dir : Dir)
+    (hn : n < g.nodes.length) (hw : w < g.workers.length) (hph : ph ≠ .pre)
+    (hroot : (g.node n).objectRoot = false ↔ ph = .plain) : Basic g (startTest g s n w ph dir).1 All := by
+  rw [startTest_nonpre_fst g s n w ph dir hph]
+  have hns : n < ({ s with nextTag := s.nextTag + 1 } : State).nodes.length := by show n < s.nodes.length; rw [b.nodesLen]; exact hn
+  have ba : Basic g (({ s with nextTag := s.nextTag + 1 }).setNd n
+      (fun d => { d with results := d.results ++ [phOf (g.node n).name s.nextTag] })) (Ex w) := by
+    refine b.grow rfl (nodes_length_setNd _ _ _) rfl (phOf (g.node n).name s.nextTag) rfl (fun m => ?_)
+    rcases nd_setNd_cases ({ s with nextTag := s.nextTag + 1 }) n
+      (fun d => { d with results := d.results ++ [phOf (g.node n).name s.nextTag] }) m with h | ⟨_, _, h⟩
+    · left; rw [h]; rfl
+    · right; rw [h]; rfl
+  generalize hsa : (({ s with nextTag := s.nextTag + 1 } : State).setNd n
+      (fun d => { d with results := d.results ++ [phOf (g.node n).name s.nextTag] })) = sa at ba
+  have hsaw : sa.workers = s.workers := by rw [← hsa]; rfl
+  have hsat : sa.nextTag = s.nextTag + 1 := by rw [← hsa]; rfl
+  have hsawd : ∀ v, sa.wd v = s.wd v := fun v => by rw [← hsa]; rfl
+  have hsan : (sa.nd n).results = (s.nd n).results ++ [phOf (g.node n).name s.nextTag] := by
+    rw [← hsa, nd_setNd_eq _ n _ hns]; rfl
+  have hws : w < sa.workers.length := by rw [hsaw, b.workersLen]; exact hw
+  have b1 := ba.setWd_ex (fun d => { d with pc := .test n ph dir (uidOf (g.node n).pfx (sharedResults g s n).length) s.nextTag 0 })
+    (fun x hx => ba.paths w x hx)
+  have hwd := wd_setWd_eq sa w (fun d => { d with pc := .test n ph dir (uidOf (g.node n).pfx (sharedResults g s n).length) s.nextTag 0 }) hws
+  refine b1.close_test (by rw [hwd]) ?_ ?_ ?_
+  · refine ⟨hn, b.tagPos, ?_, hroot, fun h => absurd h hph⟩
+    show s.nextTag < sa.nextTag
+    rw [hsat]; omega
+  · intro v n' ph' dir' uid' tag' wait' hv hp
+    rw [wd_setWd_ne sa w v _ hv, hsawd] at hp
+    have := (b.pcOK v n' ph' dir' uid' tag' wait' hv hp).2.2.1
+    omega
+  · refine ⟨fun _ => ?_, fun h => absurd h hph⟩
+    show phOf (g.node n).name s.nextTag ∈ (sa.nd n).results
+    rw [hsan]; exact List.mem_append_right _ (List.mem_singleton.mpr rfl)
+
+theorem Basic.startPre {g : Graph} {s : State} {w : Nat} (b : Basic g s (Ex w)) (n : Nat) (dir : Dir)
+    (hn : n < g.nodes.length) (hw : w < g.workers.length) (hroot : (g.node n).objectRoot = true) :
+    Basic g (startTest g (s.setWd w (fun d => { d with preResults := (s.nd n).results, preName := preNameOf g n w })) n w .pre dir).1 All := by
+  rw [startTest_pre_fst]
+  have hws : w < s.workers.length := by rw [b.workersLen]; exact hw
+  have b0 := b.setWd_ex (fun d => { d with preResults := (s.nd n).results, preName := preNameOf g n w }) (fun x hx => b.paths w x hx)
+  have hwd0 := wd_setWd_eq s w (fun d => { d with preResults := (s.nd n).results, preName := preNameOf g n w }) hws
+  have hs0v : ∀ v, v ≠ w → (s.setWd w (fun d => { d with preResults := (s.nd n).results, preName := preNameOf g n w })).wd v = s.wd v :=
+    fun v hv => wd_setWd_ne s w v _ hv
+  have hs0t : (s.setWd w (fun d => { d with preResults := (s.nd n).results, preName := preNameOf g n w })).nextTag = s.nextTag := rfl
+  generalize (s.setWd w (fun d => { d with preResults := (s.nd n).results, preName := preNameOf g n w })) = s0 at b0 hwd0 hs0v hs0t ⊢
+  have b1 : Basic g ({ s0 with nextTag := s0.nextTag + 1 }) (Ex w) :=
+    b0.grow rfl rfl rfl (phOf "" s0.nextTag) rfl (fun m => Or.inl rfl)
+  have hws0 : w < ({ s0 with nextTag := s0.nextTag + 1 } : State).workers.length := by
+    show w < s0.workers.length; rw [b0.workersLen]; exact hw
+  have b2 := b1.setWd_ex (fun d => { d with
+        preResults := d.preResults ++ [phOf (s0.wd w).preName s0.nextTag],
+        pc := .test n .pre dir (uidOf "0" (s0.wd w).preResults.length) s0.nextTag 0 }) (fun x hx => b0.paths w x hx)
+  have hwd := wd_setWd_eq ({ s0 with nextTag := s0.nextTag + 1 }) w (fun d => { d with
+        preResults := d.preResults ++ [phOf (s0.wd w).preName s0.nextTag],
+        pc := .test n .pre dir (uidOf "0" (s0.wd w).preResults.length) s0.nextTag 0 }) hws0
+  have hpn : (s0.wd w).preName = preNameOf g n w := by rw [hwd0]
+  refine b2.close_test (by rw [hwd]) ?_ ?_ ?_
+  · refine ⟨hn, b0.tagPos, ?_, ?_, fun _ => ?_⟩
+    · show s0.nextTag < s0.nextTag + 1
+      omega
+    · rw [hroot]; constructor <;> intro h <;> cases h
+    · rw [hwd]; exact hpn
+  · intro v n' ph' dir' uid' tag' wait' hv hp
+    rw [wd_setWd_ne _ w v _ hv] at hp
+    have hp' : (s.wd v).pc = .test n' ph' dir' uid' tag' wait' := by rw [← hs0v v hv]; exact hp
+    have := (b.pcOK v n' ph' dir' uid' tag' wait' hv hp').2.2.1
+    omega
+  · refine ⟨fun h => absurd rfl h, fun _ => ?_⟩
+    rw [hwd]
+    exact List.mem_append_right _ (List.mem_singleton.mpr rfl)
+
+theorem Basic.startFrom {g : Graph} {s1 s' : State} {w : Nat} (b : Basic g s1 (Ex w)) (h : StartFrom g w s1 s')
+    (hw : w < g.workers.length) : Basic g s' All := by
+  cases h with
+  | plain n dir s0 evs hn hroot hdec h =>
+    rw [h]
+    exact b.startNonPre n .plain dir hn hw (by decide) ⟨fun _ => rfl, fun _ => hroot⟩
+  | pre n dir hn hroot h =>
+    rw [h]
+    exact b.startPre n dir hn hw hroot
+
+theorem Basic.cont {g : Graph} {sc s' : State} {w n : Nat} {ph : Phase} {dir : Dir} {ok : Bool} (b : Basic g sc (Ex w))
+    (h : ContEff g w n ph dir sc ok s') (hn : n < g.nodes.length) (hw : w < g.workers.length)
+    (hroot : (g.node n).objectRoot = false ↔ ph = .plain) : Basic g s' All := by
+  rcases h with ⟨hp, _, h⟩ | ⟨_, h⟩
+  · rw [h]
+    refine b.startNonPre n .main dir hn hw (by decide) ?_
+    rw [hp] at hroot
+    constructor
+    · intro h; exact absurd (hroot.mp h) (by decide)
+    · intro h; cases h
+  · have bd : Basic g (if ph = .pre then appendPre sc n w else sc) (Ex w) := by
+      split
+      · rename_i hp
+        rw [hp] at hroot
+        have hr : (g.node n).objectRoot = true := by
+          cases hc : (g.node n).objectRoot
+          · exact absurd (hroot.mp hc) (by decide)
+          · rfl
+        exact b.extendRoot n _ hr
+      · exact b
+    rcases h with ⟨a, hpc⟩ | ⟨s1, a, hs⟩
+    · exact (bd.silent a).close_nontest hpc
+    · exact (bd.silent a).startFrom hs hw
+
+theorem find?_append_singleton_ne_none {α} (l : List α) (x : α) (p : α → Bool) (hx : p x = true) :
+    (l ++ [x]).find? p ≠ none := by
+  intro h
+  rw [List.find?_eq_none] at h
+  have := h x (List.mem_append_right _ (List.mem_singleton.mpr rfl))
+  exact this hx
+
+/-- the basic invariant is preserved by every step with fuel -/
+theorem Basic.step {g : Graph} (hwf : graphWF g = true) {s : State} (b : Basic g s All) (w : Nat) (out : Outcome) (fuel : Nat)
+    (hw : w < g.workers.length) (hf : 0 < fuel) : Basic g (resume g s w out fuel).1 All := by
+  have hws : w < s.workers.length := by rw [b.workersLen]; exact hw
+  rcases resume_eff g hwf s w out fuel hf hws (b.paths w) with ⟨_, h⟩ | ⟨n, ph, dir, uid, tag, wait, hpc, sa, hrep, h⟩
+  · rcases h with ⟨a, _⟩ | ⟨s1, a, hs⟩
+    · exact b.silent a
+    · exact ((b.silent a).mono (fun _ _ => trivial)).startFrom hs hw
+  · have hsb : SameBook s sa := by
+      rcases hrep with h | ⟨_, _, _, h, _⟩
+      · rw [h]; exact ⟨rfl, rfl, rfl⟩
+      · exact h
+    have ba : Basic g sa All := b.sameBook hsb
+    have hpca : (sa.wd w).pc = .test n ph dir uid tag wait := by rw [hsb.wd]; exact hpc
+    have hok := b.pcOK w n ph dir uid tag wait trivial hpc
+    rcases h with ⟨e, _, sb, res, ok, hsab, _, hres, hc⟩ | ⟨_, h | hc⟩
+    · have bb : Basic g sb All := ba.sameBook hsab
+      have hpcb : (sb.wd w).pc = .test n ph dir uid tag wait := by rw [hsab.wd]; exact hpca
+      refine Basic.cont (sc := if ph = .pre then I2N.Trav.settlePre sb w res tag else settleNd sb n res tag) ?_ hc hok.1 hw hok.2.2.2.1
+      split
+      · exact bb.settlePre res tag
+      · exact bb.settle hpcb res hres
+    · rw [h]
+      exact ba.wait hpca (by rw [hsb.2.1]; exact hws) (wait + 1)
+    · exact (ba.mono (fun _ _ => trivial)).cont hc hok.1 hw hok.2.2.2.1
+
+theorem Basic.init (g : Graph) (hwf : graphWF g = true) (ncls : Nat) (store : List (String × List (String × String))) :
+    Basic g (initState g ncls store) All := by
+  have hnd : ∀ m, ((initState g ncls store).nd m).results = [] := by
+    intro m
+    unfold initState State.nd
+    simp only [List.getD_eq_getElem?_getD, List.getElem?_map]
+    cases g.nodes[m]? <;> rfl
+  have hwd : ∀ v, ((initState g ncls store).wd v) = { path := [g.root] } ∨ ((initState g ncls store).wd v) = {} := by
+    intro v
+    unfold initState State.wd
+    simp only [List.getD_eq_getElem?_getD, List.getElem?_map]
+    cases g.workers[v]?
+    · right; rfl
+    · left; rfl
+  have hpc : ∀ v, ((initState g ncls store).wd v).pc.isTest = false := by
+    intro v; rcases hwd v with h | h <;> rw [h] <;> rfl
+  have hnt : ∀ v n ph dir uid tag wait, ((initState g ncls store).wd v).pc ≠ .test n ph dir uid tag wait := by
+    intro v n ph dir uid tag wait h
+    have := hpc v; rw [h] at this; simp [Pc.isTest] at this
+  refine ⟨by simp [initState], by simp [initState], ?_, by simp [initState], ?_, ?_, ?_, ?_, ?_⟩
+  · intro v x hx
+    rcases hwd v with h | h
+    · rw [h] at hx
+      have : x = g.root := by simpa using hx
+      rw [this]; exact graphWF_root hwf
+    · rw [h] at hx; simp at hx
+  · intro v n ph dir uid tag wait _ h; exact absurd h (hnt _ _ _ _ _ _ _)
+  · intro v v' n ph dir uid tag wait n' ph' dir' uid' tag' wait' _ _ _ h; exact absurd h (hnt _ _ _ _ _ _ _)
+  · intro v n ph dir uid tag wait _ h; exact absurd h (hnt _ _ _ _ _ _ _)
+  · intro m _ r hr; rw [hnd] at hr; simp at hr
+  · intro m t _ _; rw [hnd]; simp
+
+/-- states reachable from the initial state by steps of real workers with fuel (the fuel only bounds the
+number of loop iterations of one step in the driver; with fuel 0 a step may stop before the pc is reset) -/
+inductive ReachableR (g : Graph) (ncls : Nat) (store : List (String × List (String × String))) : State → Prop
+  | init : ReachableR g ncls store (initState g ncls store)
+  | step {s : State} (w : Nat) (out : Outcome) (fuel : Nat) :
+      ReachableR g ncls store s → w < g.workers.length → 0 < fuel → ReachableR g ncls store (resume g s w out fuel).1
+
+theorem ReachableR.basic {g : Graph} (hwf : graphWF g = true) {ncls : Nat} {store : List (String × List (String × String))}
+    {s : State} (h : ReachableR g ncls store s) : Basic g s All := by
+  induction h with
+  | init => exact Basic.init g hwf ncls store
+  | step w out fuel _ hw hf ih => exact ih.step hwf w out fuel hw hf
+
 end I2N.Trav
